@@ -360,20 +360,168 @@ def run_c18(prop, tier, seed):
             extra = set(o['reads']) - set(o['undeclared']) - set(o['globals']) - {'self'}
             if extra:
                 disagreements += 1
+    macro_cov = c18_macro_part(prop, tier, seed, ev, env_globals)
     log('[%s] engine B: %d programs, %d BMC queries: unsat=%d sat=%d (confirmed natively %d), skipped=%d, z3 %.1fs' % (
         prop, len(fam), n_q, n_unsat, n_sat, n_confirmed, n_skip, z3_s))
     ev['coverage'] = dict(programs=n_q, queries=n_q, unsat=n_unsat, sat=n_sat, sat_confirmed_natively=n_confirmed,
                           rejected_by_parser=n_rej, outside_fragment=n_skip, disagreements_checked=len(val),
-                          native_reads_not_covered=disagreements, z3_seconds=round(z3_s, 1), encoding_totals=agg,
+                          native_reads_not_covered=disagreements, z3_seconds=round(z3_s, 1), encoding_totals=agg, macro_family=macro_cov,
                           family='all chains of <=2 nested constructs from %s x leaves %s%s; every branch outcome symbolic, loops unrolled %d iterations' % (
                               C18_SCOPED, C18_LEAVES, ' + seeded sample of depth-3 chains', 2 if tier == 'quick' else 3),
                           samples=samples, wall_s=round(time.time() - t0, 1))
     return ev
 
 
+def _macro_dumps():
+    fam = G.macro_family()
+    for i, p in enumerate(fam):
+        p['id'] = i
+    dumps = {d['id']: d for d in run_tool('dump', [dict(id=p['id'], src=p['src']) for p in fam], timeout=1200)}
+    return fam, dumps
+
+
+def c18_macro_part(prop, tier, seed, ev, env_globals):
+    """C18 on the macro family: (root) every Enclose(n) is a read of n at the definition point; (macro and
+    call-block bodies) a Lookup(n) that the body's own frames leave unbound on some path and that is not
+    enclosed falls through to the render context: n must then be reported."""
+    fam, dumps = _macro_dumps()
+    unroll = 2 if tier == 'quick' else 3
+    nq = nun = nsat = nconf = nskip = 0
+    z3s = 0.0
+    unconfirmed = []
+    for p in fam:
+        d = dumps.get(p['id'])
+        if d is None or 'error' in d:
+            continue
+        ins = d['instrs']
+        exempt = set(d['undeclared']) | env_globals | {'self'}
+        queries = [('root', E.sym_unbound_reads(ins, exempt, unroll=unroll, macros=True))]
+        for name, entry, bpc, enc in E.macro_units(ins):
+            queries.append(('macro %s@%d' % (name, entry),
+                            E.sym_unbound_reads(ins, exempt | set(enc) | set(E.MACRO_SPECIALS), unroll=unroll, entry=entry, macros=True)))
+        for unit, (verdict, info, dt, stats) in queries:
+            z3s += dt
+            if verdict == 'skipped':
+                nskip += 1
+                continue
+            nq += 1
+            if verdict == 'unsat':
+                nun += 1
+            elif verdict == 'sat':
+                nsat += 1
+                hit = None
+                for ci, c in enumerate(G.macro_contexts()):
+                    o = run_tool('reads', [dict(src=p['src'], ctx=c)])[0]
+                    extra = set(o['reads']) - set(o['undeclared']) - set(o['globals']) - {'self'}
+                    if extra:
+                        hit = (c, sorted(extra), o)
+                        break
+                if hit:
+                    nconf += 1
+                    if len(ev['violations']) < 5:
+                        h = hashlib.sha1(p['src'].encode()).hexdigest()[:10]
+                        rp = os.path.join(nativelib.replay_dir(), '%s-B-%s.json' % (prop, h))
+                        json.dump(dict(property=prop, engine='B', program=p['src'], reported=d['undeclared'], unit=unit, bytecode_path=_js(info),
+                                       native=dict(context=hit[0], reads=hit[2]['reads'], unreported_reads=hit[1]), macro_family=True,
+                                       how='bin/check %s --replay %s' % (prop, rp)), open(rp, 'w'), indent=1)
+                        ev['violations'].append(dict(replay=rp, failed=[dict(desc='render of %r looks up %s which undeclared_variables() = %s does not report' % (p['src'][:120], hit[1], d['undeclared']), loc='%s, bytecode lookups %s' % (unit, info.get('lookups') if isinstance(info, dict) else '?'))]))
+                else:
+                    unconfirmed.append('engine B/C18 macros: solver path reads an unreported name in %r (%s) but no native run shows the read' % (p['src'][:100], unit))
+            else:
+                ev['problems'].append('engine B/C18 macros: z3 returned %s for %r' % (verdict, p['src'][:80]))
+    if unconfirmed and not nconf:
+        ev['problems'].extend(unconfirmed[:5])
+    log('[%s] engine B macros: %d programs, %d unit queries: unsat=%d sat=%d (confirmed natively %d), z3 %.1fs' % (prop, len(fam), nq, nun, nsat, nconf, z3s))
+    return dict(programs=len(fam), unit_queries=nq, unsat=nun, sat=nsat, sat_confirmed_natively=nconf, outside_fragment=nskip, z3_seconds=round(z3s, 1))
+
+
+def run_c03(prop, tier, seed):
+    """C03, closure soundness of macros and call blocks (the clause 'assignments at template level persist'
+    as seen from inside a macro): on the real instruction stream of every program of the macro family, z3
+    decides per macro body whether SOME path (all branch outcomes free, loops unrolled) reaches a Lookup(n)
+    that none of the body's own frames binds although n is assigned at template level and the compiler did
+    not emit Enclose(n) for that macro - the macro would then see the render context (or nothing) instead of
+    the template's variable.  sat is replayed natively: the render must show `n=CTX..` or `n=]`."""
+    t0 = time.time()
+    ev = dict(engine='B', violations=[], known_hits=[], problems=[], coverage={})
+    err = build_native()
+    if err:
+        ev['problems'].append('engine B: native tools did not build: ' + err[-400:])
+        return ev
+    fam, dumps = _macro_dumps()
+    unroll = 2 if tier == 'quick' else 3
+    nq = nun = nsat = nconf = 0
+    z3s = 0.0
+    samples = []
+    unconfirmed = []
+    nativelib.replay_dir()
+    for p in fam:
+        d = dumps.get(p['id'])
+        if d is None or 'error' in d:
+            ev['problems'].append('engine B/C03: the compiler rejected a family program: %r %s' % (p['src'][:80], (d or {}).get('error')))
+            continue
+        ins = d['instrs']
+        tl = set(E.template_level_stores(ins))
+        for name, entry, bpc, enc in E.macro_units(ins):
+            only = tl - set(enc) - set(E.MACRO_SPECIALS)
+            if not only:
+                nq += 1
+                nun += 1
+                continue
+            verdict, info, dt, stats = E.sym_unbound_reads(ins, set(), unroll=unroll, entry=entry, macros=True, only=only)
+            z3s += dt
+            nq += 1
+            if verdict == 'unsat':
+                nun += 1
+                if len(samples) < 4:
+                    samples.append(dict(program=p['src'], macro=name, enclosed=enc, template_level_names=sorted(tl), verdict='unsat: no path of the body reads a template-level name that is neither bound in the macro nor enclosed', encoding=stats))
+            elif verdict == 'sat':
+                nsat += 1
+                bad = None
+                for c in G.macro_contexts():
+                    o = run_tool('render', [dict(src=p['src'], ctx=c)])[0]
+                    why = G.closure_oracle(p.get('prefix'), c, o['ok']) if 'ok' in o else None
+                    if why:
+                        bad = (c, o['ok'])
+                        break
+                    if 'panic' in o:
+                        bad = (c, 'panic: ' + o['panic'])
+                        break
+                if bad:
+                    nconf += 1
+                    if len(ev['violations']) < 5:
+                        h = hashlib.sha1(p['src'].encode()).hexdigest()[:10]
+                        rp = os.path.join(nativelib.replay_dir(), '%s-B-%s.json' % (prop, h))
+                        json.dump(dict(property=prop, engine='B', program=p['src'], prefix=p.get('prefix'), macro=name, enclosed=enc, bytecode_path=_js(info),
+                                       native=dict(context=bad[0], output=bad[1]), how='bin/check %s --replay %s' % (prop, rp)), open(rp, 'w'), indent=1)
+                        ev['violations'].append(dict(replay=rp, failed=[dict(desc='macro %s of %r reads %s which is assigned at template level but not enclosed; native render: %r' % (name, p['src'][:120], info.get('lookups'), bad[1][:80]), loc='macro body @%d' % entry)]))
+                else:
+                    unconfirmed.append('engine B/C03: solver path in macro %s of %r reads an unenclosed template-level name %s but no native render shows [CTX] / []' % (name, p['src'][:100], info.get('lookups')))
+            else:
+                ev['problems'].append('engine B/C03: z3 returned %s (%s) for %r' % (verdict, info, p['src'][:80]))
+    if unconfirmed:
+        ev['problems'].extend(unconfirmed[:5])
+    log('[%s] engine B closures: %d programs, %d macro-body queries: unsat=%d sat=%d (confirmed natively %d), z3 %.1fs' % (prop, len(fam), nq, nun, nsat, nconf, z3s))
+    ev['coverage'] = dict(programs=len(fam), queries=nq, unsat=nun, sat=nsat, sat_confirmed_natively=nconf, z3_seconds=round(z3s, 1),
+                          family='macro family: %d prefixes x %d signatures x %d bodies + call blocks (%d signatures x %d bodies); every branch outcome symbolic, loops unrolled %d' % (
+                              len(G.MACRO_PREFIX), len(G.MACRO_SIGS), len(G.MACRO_BODIES), len(G.CALLER_SIGS), len(G.CALLER_BODIES), unroll),
+                          samples=samples, wall_s=round(time.time() - t0, 1))
+    return ev
+
+
+def replay_c03(path):
+    d = json.load(open(path))
+    o = run_tool('render', [dict(src=d['program'], ctx=d['native']['context'])])[0]
+    print(json.dumps(o))
+    return 'panic' in o or ('ok' in o and G.closure_oracle(d.get('prefix'), d['native']['context'], o['ok']) is not None)
+
+
 def replay_c18(path):
     d = json.load(open(path))
-    outs = c18_reads(d['program'])
+    if d.get('macro_family'):
+        outs = run_tool('reads', [dict(src=d['program'], ctx=c) for c in G.macro_contexts()])
+    else:
+        outs = c18_reads(d['program'])
     for o in outs:
         extra = set(o['reads']) - set(o['undeclared']) - set(o['globals']) - {'self'}
         if extra:
